@@ -26,6 +26,12 @@ structure Quirks where
   dimacsSingleClause : Bool := false
   /-- `to_bqm`: `_ret = <symbol>` takes the `AndConst` branch -/
   retSymbolAndConst : Bool := false
+  /-- `convert_to_dimacs` takes `.args` of a CNF that is a literal or `False` -/
+  dimacsAtomCnf : Bool := false
+  /-- `convert_to_bool_expression` conjoins the right-hand side of every definition, intermediates included -/
+  bexpConjoinsIntermediates : Bool := false
+  /-- py2bexp calls `to_cnf/to_dnf(simplify=True)` without `force`: ValueError above 8 variables -/
+  nfVarLimit : Bool := false
   deriving Repr, DecidableEq, Inhabited
 
 def Quirks.none : Quirks := {}
@@ -39,6 +45,9 @@ def Quirks.ofList (l : List String) : Quirks :=
     repeatZero := l.contains "repeatZero"
     identityGateRaises := l.contains "identityGateRaises"
     dimacsSingleClause := l.contains "dimacsSingleClause"
-    retSymbolAndConst := l.contains "retSymbolAndConst" }
+    retSymbolAndConst := l.contains "retSymbolAndConst"
+    dimacsAtomCnf := l.contains "dimacsAtomCnf"
+    bexpConjoinsIntermediates := l.contains "bexpConjoinsIntermediates"
+    nfVarLimit := l.contains "nfVarLimit" }
 
 end QV
